@@ -1,5 +1,6 @@
 import KyupyVerif.Model.SimOps
 import KyupyVerif.Model.Sig
+import KyupyVerif.Model.MapCert
 /-! Hand model (M) of `LogicSim`'s state handling around `c_prop` (logic_sim.py: `s_to_c`, `c_to_s`, `s_ppo_to_ppi`,
 `cycle`) and of the index tables `pi/po/ppio/pippi/poppo_s_locs` that `SimOps.__init__` derives (sim.py, last block).
 
@@ -137,5 +138,13 @@ def captureRow {α} (net : Net) (strip : Bool) (sol : Nat → α) (s1 : List α)
 /-- next assignment: ports keep their value, a state element at position `p` gets `merge old (sol (captured signal))` -/
 def nextRow {α} (net : Net) (strip : Bool) (merge : α → α → α) (sol : Nat → α) (a : List α) : List α :=
   a.mapIdx fun p v => if net.io.length ≤ p then merge v (sol (capSig net strip p)) else v
+
+/-! ### decidable side conditions of the memory-level statement (C01 `cycle_on_memory`), evaluated on the real tables -/
+
+/-- every flip-flop / latch has an output pin list (so a (P)PI slot: `s_to_c` then writes only allocated rows) -/
+def stateOutsB (net : Net) : Bool := (ppioS net).all fun q => decide (0 < (sNodeAt net q).outs.length)
+/-- the (P)PO slot of a flip-flop / latch with open data pin is the row of the constant slot (the D9 repair, read off the table) -/
+def zeroCapB (p : MapIn) : Bool :=
+  (ppioS p.net).all fun q => ((sNodeAt p.net q).inPin 0).isSome || p.loc (p.ix.ppo + q) == p.loc p.ix.zero
 
 end KV.Cycle
